@@ -420,7 +420,7 @@ func c18Run(c *lib.Ctx) {
 func init() {
 	lib.Register(&lib.Check{
 		ID: "C18", Level: "model_checking",
-		Rule: "(identity) names {m, 'm:a=1', ''} x all 28 tag maps with <=3 tags over keys {a,b,c} and values {1,2} (plus nil and empty) x {counter, gauge, histogram, timer}: the metric is requested twice under EVERY assignment of iteration orders to the tag-map range points of the key computation (full DFS over the choice tree, all n! orders per point); both requests must return the same pointer, both events must land in it, GetAllMetrics must list one series. (monitor) every sequence of <=3 (quick) / <=4 (thorough) calls of RecordDatabaseOperation(load ok / load failed / save ok) and RecordSearchOperation(hit / miss) under every order assignment (cap 3000 schedules per sequence, reported): per-identity and total counts in the report equal the operations recorded, one series per identity. (accounting) every sequence of 4 (quick) / 5 (thorough) operations over {Inc, Add(3), Observe(0.125|0.25|1|7|20000), Set(2.5), Reset}: counter, histogram count / exact sum / mean, gauge, percentile monotonicity and GetAllMetrics after every step. states = cases; transitions = executions under distinct order assignments",
+		Rule:      "(identity) names {m, 'm:a=1', ''} x all 28 tag maps with <=3 tags over keys {a,b,c} and values {1,2} (plus nil and empty) x {counter, gauge, histogram, timer}: the metric is requested twice under EVERY assignment of iteration orders to the tag-map range points of the key computation (full DFS over the choice tree, all n! orders per point); both requests must return the same pointer, both events must land in it, GetAllMetrics must list one series. (monitor) every sequence of <=3 (quick) / <=4 (thorough) calls of RecordDatabaseOperation(load ok / load failed / save ok) and RecordSearchOperation(hit / miss) under every order assignment (cap 3000 schedules per sequence, reported): per-identity and total counts in the report equal the operations recorded, one series per identity. (accounting) every sequence of 4 (quick) / 5 (thorough) operations over {Inc, Add(3), Observe(0.125|0.25|1|7|20000), Set(2.5), Reset}: counter, histogram count / exact sum / mean, gauge, percentile monotonicity and GetAllMetrics after every step. states = cases; transitions = executions under distinct order assignments",
 		Assume:    []string{"only map ranges inside internal/metrics are explored here; dyadic observation values make the exact sum order-independent", "concurrent get-or-create and increments are explored by C11 (scenario S5)"},
 		QuickSecs: 120, ThorSecs: 900, Graph: true,
 		Run: c18Run,
